@@ -717,7 +717,8 @@ pub struct Program {
     pub roots: Vec<TE>,
 }
 
-pub const PRELUDE: &str = r#"#![allow(dead_code, unused_imports, unused_variables, non_camel_case_types, non_snake_case, unused_parens, unreachable_patterns)]
+pub const PRELUDE: &str = r#"#![recursion_limit = "1024"]
+#![allow(dead_code, unused_imports, unused_variables, non_camel_case_types, non_snake_case, unused_parens, unreachable_patterns)]
 pub mod prelude {
     pub use parity_scale_codec::{Compact, CompactAs, Decode, Encode};
     pub use scale_info::{meta_type, MetaType, PortableRegistry, Registry, TypeInfo};
